@@ -8,6 +8,12 @@
 //
 // usage: c07_statics scan   <specfile> <seed> <n_iid> <max_states> <shard> <nshards>
 //        c07_statics replay <specfile> <seed> <itemA|-1> <itemX> <n_iid>   (prints the event of X after A, or of X alone)
+//        c07_statics firstuse <specfile> <seed> <n_iid> <order_seed> <max_items>
+//            walks the items in an order of its own and reports the words that changed exactly ONCE (first-use initialisations)
+//            with their final value and the item during which they changed: a first-use static whose value differs between two
+//            processes that started with different events is state that depends on history ("first call wins")
+//        c07_statics fuinject <specfile> <seed> <n_iid> <wordfile> <max_items>
+//            wordfile lines: <word name> <value 1 hex> <value 2 hex>; every item is shot under value set 1 and under value set 2
 //   spec lines:  B <name> [thr ...]   |   D <name> <level> <mode>
 #include <algorithm>
 #include <cstdlib>
@@ -183,6 +189,78 @@ int main(int argc, char ** argv)
     bxdecay0::event ex;
     size_t d = shoot_item(g_items[x], seed, ex);
     fprintf(OUT, "{\"draws\":%zu,\"event\":%s}\n", d, event_json(ex).c_str());
+    return 0;
+  }
+  if (mode == "firstuse" || mode == "fuinject") {
+    if (argc < 7) return 2;
+    long n_iid = atol(argv[4]);
+    size_t max_items = (size_t)atol(argv[6]);
+    dl_iterate_phdr(phdr_cb, nullptr);
+    load_spec(argv[2], seed, n_iid);
+    if (mode == "firstuse") {
+      uint64_t order_seed = strtoull(argv[5], 0, 10);
+      std::vector<size_t> order(g_items.size());
+      for (size_t i = 0; i < order.size(); i++) order[i] = i;
+      Rng ro(order_seed, 7072);
+      for (size_t i = order.size(); i > 1; i--) std::swap(order[i - 1], order[ro.below(i)]);
+      if (order.size() > max_items) order.resize(max_items);
+      std::vector<int> changes(total_words(), 0);
+      std::vector<long> first_item(total_words(), -1);
+      Snap prev, cur;
+      snapshot(prev);
+      for (size_t oi : order) {
+        bxdecay0::event e;
+        shoot_item(g_items[oi], seed, e);
+        snapshot(cur);
+        for (size_t w = 0; w < cur.size(); w++)
+          if (cur[w] != prev[w]) {
+            if (changes[w]++ == 0) first_item[w] = (long)oi;
+          }
+        prev.swap(cur);
+      }
+      std::string js = "[";
+      bool first = true;
+      for (size_t w = 0; w < changes.size(); w++)
+        if (changes[w] == 1) {
+          js += fmt("%s{\"word\":%s,\"value\":\"%016llx\",\"item\":%ld,\"config\":%s}", first ? "" : ",", jstr(word_name(w)).c_str(), (unsigned long long)prev[w], first_item[w],
+                    jstr(g_cfgs[g_items[first_item[w]].cfg].label()).c_str());
+          first = false;
+        }
+      js += "]";
+      fprintf(OUT, "{\"mode\":\"firstuse\",\"order_seed\":%llu,\"items\":%zu,\"once\":%s}\n", (unsigned long long)order_seed, order.size(), js.c_str());
+      return 0;
+    }
+    // fuinject
+    struct W { uint64_t * p; uint64_t v1, v2; };
+    std::vector<W> ws;
+    {
+      std::ifstream wf(argv[5]);
+      std::string name, h1, h2;
+      while (wf >> name >> h1 >> h2) {
+        for (size_t w = 0; w < total_words(); w++)
+          if (word_name(w) == name) ws.push_back({word_ptr(w), strtoull(h1.c_str(), 0, 16), strtoull(h2.c_str(), 0, 16)});
+      }
+    }
+    // first use of everything (guards set, tables built) before values are swapped
+    for (size_t xi = 0; xi < g_items.size() && xi < max_items; xi++) {
+      bxdecay0::event e;
+      shoot_item(g_items[xi], seed, e);
+    }
+    long shots = 0, differing = 0;
+    std::string wit = "[";
+    for (size_t xi = 0; xi < g_items.size() && xi < max_items; xi++) {
+      for (auto & w : ws) *w.p = w.v1;
+      bxdecay0::event e1, e2;
+      size_t d1 = shoot_item(g_items[xi], seed, e1);
+      for (auto & w : ws) *w.p = w.v2;
+      size_t d2 = shoot_item(g_items[xi], seed, e2);
+      shots += 2;
+      if (d1 != d2 || !events_bit_identical(e1, e2)) {
+        if (differing++ < 6) wit += fmt("%s%zu", differing > 1 ? "," : "", xi);
+      }
+    }
+    wit += "]";
+    fprintf(OUT, "{\"mode\":\"fuinject\",\"words\":%zu,\"shots\":%ld,\"differing\":%ld,\"witness_items\":%s}\n", ws.size(), shots, differing, wit.c_str());
     return 0;
   }
   long n_iid = atol(argv[4]);
